@@ -99,12 +99,24 @@ def run(ctx):
     ctx.level = "model_checking"
 
     # ---- 1. model pass + case generation
-    cfg = "Gen_Policies_quick.cfg" if quick else "Gen_Policies_thorough.cfg"
-    gen = vf.tlc_must_pass(ctx, "Gen_Policies", cfg, workers=DEV_WORKERS, heap="6g", timeout=400 if quick else 1800, deadlock=False)
-    cases = vf.tlc_printed(gen.out, "CASE")
-    gen.out = ""
-    if not cases:
-        raise vf.Inconclusive("the generator printed no cases")
+    cfgs_used = ["Gen_Policies_quick.cfg"] if quick else ["Gen_Policies_thorough_a.cfg", "Gen_Policies_thorough_b.cfg"]
+    cases, gens = [], []
+    for cfg in cfgs_used:
+        gen = vf.tlc_must_pass(ctx, "Gen_Policies", cfg, workers=DEV_WORKERS, heap="8g", timeout=400 if quick else 2400,
+                               deadlock=False)
+        got = vf.tlc_printed(gen.out, "CASE")
+        gen.out = ""
+        if not got:
+            raise vf.Inconclusive("the generator printed no cases (%s)" % cfg)
+        # every stage-3 state is one case; the other states are the enumeration levels above it
+        lay = {json.dumps([c["w"]["ring"], c["w"]["dc"], c["w"]["rack"]]) for c in got}
+        mid = {json.dumps(c["w"], sort_keys=True) for c in got}
+        if gen.distinct != 1 + len(lay) + len(mid) + len(got):
+            raise vf.Inconclusive("generator output incomplete (%s): %d cases parsed, %d states, %d layouts, %d worlds" % (
+                cfg, len(got), gen.distinct, len(lay), len(mid)))
+        cases += got
+        gens.append(gen)
+    cfg = "+".join(cfgs_used)
     for i, c in enumerate(cases):
         c["id"] = i + 1
     cp = os.path.join(ctx.tmp, "pcases.ndjson")
@@ -215,8 +227,8 @@ def run(ctx):
     trs = [t for t in (tr1, tr2, tr3) if t]
     sample_vec = (differ or sampled)[0]
     ctx.cov = dict(
-        states=gen.distinct + sum(t.distinct for t in trs),
-        transitions=gen.generated + sum(t.generated for t in trs),
+        states=sum(g.distinct for g in gens) + sum(t.distinct for t in trs),
+        transitions=sum(g.generated for g in gens) + sum(t.generated for t in trs),
         traces_validated_against_impl=ncases + len(rvecs) + len(srecs),
         exhaustive=True, generator_cfg=cfg,
         enumerated_cases=ncases, policy_option_combinations=len(cfgs), picks_predicted=npicks_pred, picks_drained=picks_real,
